@@ -250,6 +250,23 @@ def idCellMaps (f : MeshFields) (ct : String) : List Nat := List.range (f.mesh.c
 def noCoincident (A : Nat) (m : Mesh) : Bool :=
   (pointData A m).dups.isEmpty
 
+/-- the hypotheses on ONE data set `f` under which `sort` is canonical and relabelled copies of `f`
+    compare equal (decidable form of `BaseHyp`, FcProofs/Lemmas/LexsortNoFalseFail.lean):
+    well-formed, one block per cell type, cell fields on existing types, some point is connected,
+    `pointHyp` (Sep ∧ Distinguishable) of the stripped mesh under the tolerances of `f`, and `h`
+    separates the cells of every type of the point-sorted view -/
+def baseHyp (h : List Nat → Int) (f : MeshFields) : Bool :=
+  let t := meshTolOf f.mesh
+  let τ0 := specStripMap f.mesh
+  let g0 := applyPointMap f τ0
+  f.wf && decide f.mesh.cellTypes.Nodup && (f.cellFields.all fun cf => f.mesh.cellTypes.contains cf.ctype) &&
+  !τ0.isEmpty && pointHyp t g0.mesh &&
+  match sortPointsIdx argsortStable t g0.mesh with
+  | some I0 =>
+    (applyPointMap f (I0.map (τ0.getD · 0))).mesh.cells.all fun b =>
+      decide (b.2.map fun r => h (sortNat r)).Nodup
+  | none => false
+
 /-! ### what the comparison of a relabelled pair must answer -/
 
 def allPassed (o : Outcome) : Bool := o.domainEq && o.statuses.all fun s => s.2.2 == .passed
